@@ -68,7 +68,7 @@ def run(tier, seed):
         for lname, loader in loaders.items():
             env = Environment(loader=loader)
             for name in sorted(names):
-                for mode in ("sync", "async") if (lname in ("fs", "pkg") and len(name) < 12) else ("sync",):
+                for mode in ("sync", "async") if (lname in ("fs", "pkg", "fs-nosym", "fs-cache-nosym") and len(name) < 12) else ("sync",):
                     cases += 1
                     try:
                         src = loader.get_source(env, name) if mode == "sync" else asyncio.run(loader.get_source_async(env, name))
